@@ -132,8 +132,7 @@ Qed.
 
 Lemma truthy_list_nonempty o : (forall s, o = Some s -> s <> []) -> truthy_list o = opt_list o.
 Proof.
-  intros H. unfold truthy_list. destruct o as [[|ch s]|]; cbn; try reflexivity.
-  exfalso. now apply (H [] eq_refl).
+  intros _. unfold truthy_list. destruct o as [[|ch s]|]; cbn; reflexivity.
 Qed.
 
 (* ------------------------------------------------------------------ *)
@@ -364,11 +363,9 @@ Proof.
   rewrite Hafi' in Hafi. inversion Hafi; subst a fl'. clear Hafi.
   rewrite Htake in Hnames. destruct (names_ok_parts _ Hnames) as [Hne Hnd].
   assert (Tvp : str_truthy vp = is_some vp).
-  { destruct vp as [[|ch s]|]; try reflexivity. exfalso. apply (Hne []); [|reflexivity].
-    cbn [opt_list]. rewrite !in_app_iff. right. right. right. left. now left. }
+  { destruct vp as [[|ch s]|]; reflexivity. }
   assert (Tvk : str_truthy vk = is_some vk).
-  { destruct vk as [[|ch s]|]; try reflexivity. exfalso. apply (Hne []); [|reflexivity].
-    cbn [opt_list]. rewrite !in_app_iff. right. right. right. right. now left. }
+  { destruct vk as [[|ch s]|]; reflexivity. }
   unfold args_to_input, args_to_varnames, truthy_list.
   cbn [a_posonly a_poskw a_varpos a_kwonly a_varkw]. cbv zeta.
   rewrite Tvp, Tvk, <- Hv, <- Hkw.
